@@ -291,6 +291,22 @@ func ruleNAM4(c *Ctx) {
 				quoted = false
 			}
 		}
+		if len(specs) == 2 && !quoted && specs[0] == "s" && specs[1] == "s" {
+			// "%s<sep>%s" with the first operand escaped: esc -> esc esc, sep -> esc sep makes the first unescaped
+			// separator the boundary, whatever the second operand contains
+			sep := ""
+			if i := strings.Index(format, "%s"); i == 0 {
+				rest := format[2:]
+				if j := strings.Index(rest, "%s"); j > 0 && j+2 == len(rest) {
+					sep = rest[:j]
+				}
+			}
+			ops := varargElems(call.Call.Args[1])
+			if sep != "" && len(ops) == 2 && c.escapedBy(ops[0], sep) {
+				c.OK(construct, p.InstrPos(call), fmt.Sprintf("name escaped (escape character and separator %q) before it is joined with the version", sep))
+				return
+			}
+		}
 		if len(specs) == 2 && !quoted {
 			c.Fail(construct, p.InstrPos(call), fmt.Sprintf("two free strings are joined with format %q: the separator can occur inside either, so (`a:b`,`c`) and (`a`,`b:c`) share one library slot", format))
 			return
@@ -395,4 +411,67 @@ func ruleNAM5(c *Ctx) {
 		}
 		c.OK(key, p.InstrPos(w.In), "writer is "+names[w.Fn])
 	}
+}
+
+// escapedBy: v is the result of (*strings.Replacer).Replace on a package-level replacer that was built, in the
+// package initialiser, from constant pairs containing (e -> e e) and (sep -> e sep) for one escape string e.
+func (c *Ctx) escapedBy(v ssa.Value, sep string) bool {
+	v = stripConv(v)
+	if mi, ok := v.(*ssa.MakeInterface); ok {
+		v = mi.X
+	}
+	call, ok := v.(*ssa.Call)
+	if !ok || calleeName(call) != "(*strings.Replacer).Replace" || len(call.Call.Args) != 2 {
+		return false
+	}
+	ld, ok := call.Call.Args[0].(*ssa.UnOp)
+	if !ok {
+		return false
+	}
+	g, ok := ld.X.(*ssa.Global)
+	if !ok || g.Pkg == nil {
+		return false
+	}
+	initFn := g.Pkg.Func("init")
+	if initFn == nil {
+		return false
+	}
+	// exactly one store to the global in the whole module: the one in init
+	stores := 0
+	var pairs []string
+	for _, fn := range c.P.ModuleFuncs() {
+		for _, b := range fn.Blocks {
+			for _, in := range b.Instrs {
+				st, ok := in.(*ssa.Store)
+				if !ok || st.Addr != ssa.Value(g) {
+					continue
+				}
+				stores++
+				nc, ok := st.Val.(*ssa.Call)
+				if !ok || calleeName(nc) != "strings.NewReplacer" || len(nc.Call.Args) != 1 {
+					return false
+				}
+				for _, e := range varargElems(nc.Call.Args[0]) {
+					sv, ok := constString(e)
+					if !ok {
+						return false
+					}
+					pairs = append(pairs, sv)
+				}
+			}
+		}
+	}
+	if stores != 1 || len(pairs)%2 != 0 {
+		return false
+	}
+	m := map[string]string{}
+	for i := 0; i+1 < len(pairs); i += 2 {
+		m[pairs[i]] = pairs[i+1]
+	}
+	to, ok := m[sep]
+	if !ok || !strings.HasSuffix(to, sep) || len(to) <= len(sep) {
+		return false
+	}
+	esc := strings.TrimSuffix(to, sep)
+	return m[esc] == esc+esc && !strings.Contains(esc, sep)
 }
